@@ -84,7 +84,7 @@ fn corpus(ctx: &Ctx) -> Vec<(String, String)> {
     for k in [1usize, 3, 5] {
         out.push((format!("wide{k}"), wide_program(k)));
     }
-    out.push(("c17-program".into(), super::c17::PROGRAM.to_string()));
+    out.push(("c17-program".into(), super::c17::PROGRAMS[0].to_string()));
     // every repository file that compiles on its own
     for (name, text) in crate::corpus::st_files(&ctx.repo_dir) {
         out.push((name, text));
